@@ -264,31 +264,196 @@ Proof.
     + destruct Hin.
 Qed.
 
-(* ---- Validate (with the read-back check) ---- *)
+(* ---- Validate's read-back check (repair 1664d1a) compares the NAMES of the
+        placeholder parts only; that is enough ---- *)
 
-Lemma part_eqb_eq x y : part_eqb x y = true <-> x = y.
+Lemma list_eqb_eq x y : list_eqb x y = true <-> x = y.
 Proof.
-  destruct x, y; cbn [part_eqb]; try (split; [discriminate | discriminate]);
-    rewrite beq_eq; split; [intros ->; reflexivity | intros [= ->]; reflexivity | intros ->; reflexivity | intros [= ->]; reflexivity].
+  revert y; induction x as [|a x IH]; destruct y as [|c y]; cbn [list_eqb]; try (split; [discriminate | discriminate]); [tauto|].
+  rewrite Bool.andb_true_iff, beq_eq, IH. split; [intros [-> ->]; reflexivity | intros [= -> ->]; auto].
 Qed.
-Lemma parts_eqb_eq x y : parts_eqb x y = true <-> x = y.
+
+Definition cnt (ps : list part) : nat := length (part_names ps).
+
+Lemma part_names_flush raw k : part_names (flush raw k) = part_names k.
+Proof. destruct raw; reflexivity. Qed.
+Lemma part_names_ph n k : part_names (PPh n :: k) = n :: part_names k.
+Proof. reflexivity. Qed.
+Lemma part_names_text t k : part_names (PText t :: k) = part_names k.
+Proof. reflexivity. Qed.
+
+Lemma scan_name_some_app seen s nm rest : scan_name seen s = Some nm -> scan_name seen (s ++ rest) = Some nm.
 Proof.
-  revert y; induction x as [|a x IH]; destruct y as [|c y]; cbn [parts_eqb]; try (split; [discriminate | discriminate]); [tauto|].
-  rewrite Bool.andb_true_iff, part_eqb_eq, IH. split; [intros [-> ->]; reflexivity | intros [= -> ->]; auto].
+  revert seen nm; induction s as [|c s IH]; intros seen nm; cbn [app scan_name]; [discriminate|].
+  destruct (ph_char c).
+  - destruct (scan_name true s) as [nm'|] eqn:E; [|discriminate]. intros [= <-]. rewrite (IH true nm' E). reflexivity.
+  - destruct ((c =? 125) && seen); [intros H; exact H | discriminate].
+Qed.
+
+(* a string without '{' that starts [t ++ rest] lies inside [t] when [rest] is empty or starts with '{' *)
+Lemma prefix_within x t rest r' :
+  t ++ rest = x ++ r' -> (forall c, In c x -> c <> 123) -> brace_start rest -> exists suf, t = x ++ suf.
+Proof.
+  revert t; induction x as [|a x IH]; intros t E Hx Hr.
+  - exists t. reflexivity.
+  - destruct t as [|c t].
+    + cbn [app] in E. destruct Hr as [-> | [r ->]]; [discriminate|].
+      injection E as <- _. exfalso. apply (Hx 123); [left; reflexivity | reflexivity].
+    + cbn [app] in E. injection E as -> E.
+      destruct (IH t E (fun c Hc => Hx c (or_intror Hc)) Hr) as [suf ->]. exists suf. reflexivity.
+Qed.
+
+Lemma name_rbrace_no_lbrace nm : forallb ph_char nm = true -> forall c, In c (nm ++ [125]) -> c <> 123.
+Proof.
+  intros Hall c Hc ->. apply in_app_or in Hc as [Hc|Hc].
+  - rewrite forallb_forall in Hall. specialize (Hall 123 Hc). rewrite ph_char_lbrace in Hall. discriminate.
+  - destruct Hc as [Hc|[]]. discriminate.
+Qed.
+
+(* scanning a text run that is followed by nothing or by a '{': either no '{'
+   of it starts a match, or the leftmost match lies inside the run *)
+Lemma parts_go_run t rest raw :
+  brace_start rest ->
+  (has_match t = false /\ parts_go (t ++ rest) 0 raw = parts_go rest 0 (raw ++ t)) \/
+  (exists pre nm suf, t = pre ++ 123 :: nm ++ 125 :: suf /\ name_ok nm /\
+     parts_go (t ++ rest) 0 raw = flush (raw ++ pre) (PPh nm :: parts_go (suf ++ rest) 0 [])).
+Proof.
+  intros Hr. revert raw; induction t as [|c t IH]; intros raw.
+  - left. split; [reflexivity|]. cbn [app]. rewrite app_nil_r. reflexivity.
+  - cbn [app parts_go has_match]. destruct (N.eqb_spec c 123) as [->|Hne].
+    + destruct (scan_name false (t ++ rest)) as [nm|] eqn:E.
+      * destruct (scan_name_some _ _ _ E) as [Hall [[Hne|Hf] [r' Er]]]; [|discriminate].
+        assert (t ++ rest = (nm ++ [125]) ++ r') as Er' by (rewrite Er, <- app_assoc; reflexivity).
+        destruct (prefix_within _ _ _ _ Er' (name_rbrace_no_lbrace nm Hall) Hr) as [suf ->].
+        right. exists [], nm, suf. split; [cbn [app]; rewrite <- !app_assoc; reflexivity|].
+        split; [split; assumption|]. rewrite app_nil_r. f_equal. f_equal.
+        rewrite <- app_assoc.
+        replace (S (length nm)) with (length (nm ++ [125])) by (rewrite app_length; cbn [length]; lia).
+        apply parts_go_skip.
+      * assert (scan_name false t = None) as Et.
+        { destruct (scan_name false t) as [nm|] eqn:E'; [|reflexivity].
+          rewrite (scan_name_some_app _ _ _ rest E') in E. discriminate. }
+        rewrite Et. cbn [andb orb].
+        destruct (IH (raw ++ [123])) as [[Hm Heq] | [pre [nm [suf [-> [Hnm Heq]]]]]].
+        -- left. split; [exact Hm|]. rewrite Heq, <- app_assoc. reflexivity.
+        -- right. exists (123 :: pre), nm, suf. split; [reflexivity|]. split; [exact Hnm|].
+           rewrite Heq, <- app_assoc. reflexivity.
+    + cbn [andb orb].
+      destruct (IH (raw ++ [c])) as [[Hm Heq] | [pre [nm [suf [-> [Hnm Heq]]]]]].
+      * left. split; [exact Hm|]. rewrite Heq, <- app_assoc. reflexivity.
+      * right. exists (c :: pre), nm, suf. split; [reflexivity|]. split; [exact Hnm|].
+        rewrite Heq, <- app_assoc. reflexivity.
+Qed.
+
+(* every placeholder part that Parts finds has a well-formed name *)
+Lemma parts_go_names_ok s : forall skip raw, Forall name_ok (part_names (parts_go s skip raw)).
+Proof.
+  induction s as [|c s IH]; intros skip raw; cbn [parts_go].
+  - rewrite part_names_flush. constructor.
+  - destruct skip; [|apply IH].
+    destruct (c =? 123); [|apply IH].
+    destruct (scan_name false s) as [nm|] eqn:E; [|apply IH].
+    rewrite part_names_flush, part_names_ph. constructor; [|apply IH].
+    destruct (scan_name_some _ _ _ E) as [Hall [[Hne|Hf] _]]; [split; assumption | discriminate].
+Qed.
+
+(* Parts finds at least the real placeholders *)
+Lemma cnt_lower l :
+  (forall n, In (PPh n) l -> name_ok n) ->
+  forall t raw, (cnt l <= cnt (parts_go (t ++ print_parts l) 0 raw))%nat.
+Proof.
+  unfold cnt. induction l as [|[t1|n] l1 IH]; intros Hok.
+  - intros t raw. cbn [part_names flat_map length]. lia.
+  - intros t raw. rewrite print_parts_text, app_assoc, part_names_text.
+    apply IH. intros n Hn. apply Hok. right. exact Hn.
+  - assert (forall m, In (PPh m) l1 -> name_ok m) as Hok1 by (intros m Hm; apply Hok; right; exact Hm).
+    assert (name_ok n) as Hn by (apply Hok; left; reflexivity).
+    intros t. remember (length t) as k eqn:Hk. revert t Hk.
+    induction k as [k IHk] using lt_wf_ind. intros t Hk raw.
+    destruct (parts_go_run t (print_parts (PPh n :: l1)) raw) as [[_ Heq] | [pre [nm [suf [Et [_ Heq]]]]]].
+    + apply print_parts_brace_start. exact I.
+    + rewrite Heq, print_parts_ph, parts_go_ph by exact Hn.
+      rewrite part_names_flush, !part_names_ph. cbn [length].
+      specialize (IH Hok1 [] []). cbn [app] in IH. lia.
+    + rewrite Heq, part_names_flush, part_names_ph. cbn [length].
+      assert (length suf < k)%nat as Hlt.
+      { subst k t. rewrite !app_length. cbn [length]. rewrite app_length. cbn [length]. lia. }
+      specialize (IHk (length suf) Hlt suf eq_refl []).
+      rewrite !part_names_ph in *. cbn [length] in *. lia.
+Qed.
+
+(* the names decide: if Parts finds exactly the body's placeholder names, it
+   finds exactly the body's parts *)
+Lemma names_decide_go l :
+  (forall n, In (PPh n) l -> name_ok n) ->
+  forall t raw,
+    part_names (parts_go (t ++ print_parts l) 0 raw) = part_names l ->
+    parts_go (t ++ print_parts l) 0 raw = merge_go l (raw ++ t).
+Proof.
+  induction l as [|[t1|n] l1 IH]; intros Hok t raw Hnames.
+  - cbn [print_parts flat_map] in *.
+    destruct (parts_go_run t [] raw (or_introl eq_refl)) as [[_ Heq] | [pre [nm [suf [_ [_ Heq]]]]]].
+    + rewrite Heq. reflexivity.
+    + rewrite Heq, part_names_flush in Hnames. discriminate.
+  - rewrite print_parts_text in *. rewrite part_names_text in Hnames.
+    replace (t ++ t1 ++ print_parts l1) with ((t ++ t1) ++ print_parts l1) in * by (rewrite app_assoc; reflexivity).
+    cbn [merge_go]. replace ((raw ++ t) ++ t1) with (raw ++ (t ++ t1)) by (rewrite app_assoc; reflexivity).
+    apply IH; [|exact Hnames].
+    intros n Hn. apply Hok. right. exact Hn.
+  - assert (forall m, In (PPh m) l1 -> name_ok m) as Hok1 by (intros m Hm; apply Hok; right; exact Hm).
+    assert (name_ok n) as Hn by (apply Hok; left; reflexivity).
+    destruct (parts_go_run t (print_parts (PPh n :: l1)) raw) as [[_ Heq] | [pre [nm [suf [_ [_ Heq]]]]]].
+    + apply print_parts_brace_start. exact I.
+    + rewrite Heq, print_parts_ph, parts_go_ph in * by exact Hn.
+      rewrite part_names_flush, !part_names_ph in Hnames. injection Hnames as Hnames.
+      cbn [merge_go]. f_equal. f_equal.
+      specialize (IH Hok1 [] [] Hnames). cbn [app] in IH. exact IH.
+    + exfalso. rewrite Heq, part_names_flush, !part_names_ph in Hnames.
+      pose proof (cnt_lower (PPh n :: l1) Hok suf []) as Hc. unfold cnt in Hc.
+      apply (f_equal (@length bstr)) in Hnames. rewrite part_names_ph in Hc. cbn [length] in Hnames, Hc. lia.
+Qed.
+
+Theorem names_decide l :
+  part_names (parts (print_parts l)) = part_names l -> parts (print_parts l) = merge_texts l.
+Proof.
+  intros H. unfold parts, merge_texts in *.
+  assert (forall n, In (PPh n) l -> name_ok n) as Hok.
+  { intros n Hn. pose proof (parts_go_names_ok (print_parts l) 0 []) as Hall. rewrite H in Hall.
+    rewrite Forall_forall in Hall. apply Hall. unfold part_names. apply in_flat_map. exists (PPh n). split; [exact Hn | left; reflexivity]. }
+  apply (names_decide_go l Hok [] []). exact H.
+Qed.
+
+Lemma part_names_merge_go l raw : part_names (merge_go l raw) = part_names l.
+Proof.
+  revert raw; induction l as [|[t|n] r IH]; intros raw; cbn [merge_go].
+  - rewrite part_names_flush. reflexivity.
+  - rewrite IH. reflexivity.
+  - rewrite part_names_flush, !part_names_ph, IH. reflexivity.
 Qed.
 
 (* what the check establishes: the msgid of the body reads back as the body *)
-Theorem reads_back_spec body :
+Theorem reads_back_sound body :
+  reads_back body = true ->
+  forallb flat_node body = true /\ parts (write_body body) = merge_texts (body_parts body).
+Proof.
+  unfold reads_back. rewrite Bool.andb_true_iff, list_eqb_eq. intros [Hf Hn]. split; [exact Hf|].
+  rewrite write_body_print in *. apply names_decide, Hn.
+Qed.
+
+Theorem reads_back_iff body :
   reads_back body = true <->
   forallb flat_node body = true /\ parts (write_body body) = merge_texts (body_parts body).
-Proof. unfold reads_back. rewrite Bool.andb_true_iff, parts_eqb_eq. tauto. Qed.
+Proof.
+  split; [apply reads_back_sound|]. intros [Hf Hp]. unfold reads_back. rewrite Hf, Hp. cbn [andb].
+  apply list_eqb_eq. unfold merge_texts. apply part_names_merge_go.
+Qed.
 
 (* the check refuses nothing that is representable: flat bodies whose normal
    form is clean pass *)
 Theorem reads_back_complete body :
   forallb flat_node body = true -> parts_clean (merge_texts (body_parts body)) -> reads_back body = true.
 Proof.
-  intros Hf Hc. apply reads_back_spec. split; [exact Hf|].
+  intros Hf Hc. apply reads_back_iff. split; [exact Hf|].
   rewrite write_body_print. apply parts_print, Hc.
 Qed.
 
@@ -312,8 +477,8 @@ Theorem validate_flat body :
 Proof.
   intros Hf. unfold validate. rewrite (validate_loop_flat body 0 [body] Hf). cbn [bind forallb].
   rewrite Bool.andb_true_r. destruct (reads_back body) eqn:E.
-  - apply reads_back_spec in E. tauto.
-  - split; [discriminate|]. intros H. assert (reads_back body = true) by (apply reads_back_spec; tauto). congruence.
+  - apply reads_back_iff in E. tauto.
+  - split; [discriminate|]. intros H. assert (reads_back body = true) by (apply reads_back_iff; tauto). congruence.
 Qed.
 
 Lemma msgid_flat body : forallb flat_node body = true -> msgid body = Ok (write_body body).
@@ -330,7 +495,7 @@ Theorem validate_plural p vn pv pc cb dflt :
 Proof.
   unfold validate. cbn [validate_loop bind forallb]. rewrite Bool.andb_true_r.
   destruct (reads_back cb) eqn:E1, (reads_back dflt) eqn:E2; cbn [andb];
-    rewrite <- !reads_back_spec, E1, E2; split; try tauto; try discriminate; intros [? ?]; discriminate.
+    rewrite <- !reads_back_iff, E1, E2; split; try tauto; try discriminate; intros [? ?]; discriminate.
 Qed.
 
 Lemma msgid_plural_case p vn pv pc cv cb dflt r :
@@ -443,17 +608,17 @@ Qed.
 (* ---- a message that is not in the bundle ---- *)
 
 Theorem missing_msg mp id body :
-  bundle_message bd id = None -> eval_msg bd w mp id body = msg_body w mp body.
+  bundle_message bd id = None -> eval_msg plural_index bd w mp id body = msg_body w mp body.
 Proof. intros H. unfold eval_msg. rewrite H. reflexivity. Qed.
 
 Theorem missing_node mp id mn ds body :
   bundle_message bd id = None ->
-  walk_body_b cf bd plural_index w (NMsg mp id mn ds body) = walk_body cf w (NMsg mp id mn ds body).
+  walk_body_b cf plural_index bd w (NMsg mp id mn ds body) = walk_body cf w (NMsg mp id mn ds body).
 Proof. intros H. unfold walk_body_b. rewrite (missing_msg mp id body H). reflexivity. Qed.
 
 Lemma walk_body_b_other n :
   match n with NMsg _ _ _ _ _ => False | _ => True end ->
-  walk_body_b cf bd plural_index w n = walk_body cf w n.
+  walk_body_b cf plural_index bd w n = walk_body cf w n.
 Proof. destruct n; intros H; try reflexivity. contradiction. Qed.
 
 (* ---- a translated message without plural ---- *)
@@ -462,7 +627,7 @@ Theorem translated_flat mp id body tr s :
   forallb flat_node body = true -> coherent body -> items_from body tr ->
   bundle_message bd id = Some (new_message [] [s]) ->
   parts s = map item_part tr ->
-  eval_msg bd w mp id body = run_items w tr.
+  eval_msg plural_index bd w mp id body = run_items w tr.
 Proof.
   intros Hf Hco Hfrom Hb Hs. unfold eval_msg. rewrite Hb. cbn [new_message eval_cmsg]. rewrite Hs.
   apply (eval_parts_items body body tr); [|exact Hco | exact Hfrom].
@@ -474,7 +639,7 @@ Theorem translation_places_values mp id body tr :
   forallb flat_node body = true -> coherent body -> items_from body tr ->
   parts_clean (map item_part tr) ->
   bundle_message bd id = Some (new_message [] [msgstr_of tr]) ->
-  eval_msg bd w mp id body = run_items w tr.
+  eval_msg plural_index bd w mp id body = run_items w tr.
 Proof.
   intros Hf Hco Hfrom Hclean Hb. apply (translated_flat mp id body tr (msgstr_of tr)); try assumption.
   unfold msgstr_of. apply parts_print_clean, Hclean.
@@ -489,31 +654,135 @@ Proof.
   destruct strs as [|s [|s' r]]; try reflexivity. destruct H as [H|H]; [congruence | cbn in H; congruence].
 Qed.
 
-Theorem plural_selects mp id p vn pv cases dflt strs :
+(* msgstr[k] of a plural entry, rendered against the message [body] *)
+Definition eval_form (body : list node) (strs : list bstr) (k : nat) : M unit :=
+  match nth_error strs k with
+  | Some s => eval_parts w body (parts s)
+  | None => fail e_plural_index
+  end.
+
+Lemma eval_form_map body strs k :
+  match nth_error (map parts strs) k with
+  | Some ps => eval_parts w body ps
+  | None => fail e_plural_index
+  end = eval_form body strs k.
+Proof. unfold eval_form. rewrite nth_error_map. destruct (nth_error strs k); reflexivity. Qed.
+
+Theorem plural_selects mp id p vn pv cases dflt strs st :
   vn <> [] \/ length strs <> 1%nat ->
   bundle_message bd id = Some (new_message vn strs) ->
-  eval_msg bd w mp id [NMsgPlural p vn pv cases dflt] =
+  eval_msg plural_index bd w mp id [NMsgPlural p vn pv cases dflt] st =
   (v <-- eval w pv ;;;
    match v with
-   | VInt i =>
-       match nth_error strs (plural_index i) with
-       | Some s => eval_parts w [NMsgPlural p vn pv cases dflt] (parts s)
-       | None => fail e_plural_index
-       end
+   | VInt i => eval_form [NMsgPlural p vn pv cases dflt] strs (plural_index i)
    | _ => fail e_plural
-   end).
+   end) st.
 Proof.
   intros Hv Hb. unfold eval_msg. rewrite Hb, (new_message_plural vn strs Hv).
-  cbn [eval_cmsg]. rewrite find_plural_head.
-  assert (forall i, match nth_error (map parts strs) (plural_index i) with
-                    | Some ps => eval_parts w [NMsgPlural p vn pv cases dflt] ps
-                    | None => fail e_plural_index
-                    end =
-                    match nth_error strs (plural_index i) with
-                    | Some s => eval_parts w [NMsgPlural p vn pv cases dflt] (parts s)
-                    | None => fail e_plural_index
-                    end) as Hnth.
-  { intros i. rewrite nth_error_map. destruct (nth_error strs (plural_index i)); reflexivity. }
-  unfold mbind. apply f_equal. reflexivity.
+  cbn [eval_cmsg]. rewrite find_plural_head. unfold mbind.
+  destruct (eval w pv st) as [[v| | | | |] st']; try reflexivity.
+  destruct v; try reflexivity. rewrite eval_form_map. reflexivity.
 Qed.
+
+(* a form of a PO plural written by a translator: its items are rendered where
+   the translation puts them; the placeholders of both case bodies may be used *)
+Theorem plural_form_places_values p vn pv pc cv cb dflt strs k tr :
+  forallb flat_node cb = true -> forallb flat_node dflt = true ->
+  coherent (dflt ++ cb) -> items_from (dflt ++ cb) tr ->
+  nth_error strs k = Some (msgstr_of tr) -> parts_clean (map item_part tr) ->
+  eval_form [NMsgPlural p vn pv [NMsgPluralCase pc cv cb] dflt] strs k = run_items w tr.
+Proof.
+  intros Hc Hd Hco Hfrom Hk Hclean. unfold eval_form. rewrite Hk.
+  unfold msgstr_of. rewrite (parts_print_clean _ Hclean).
+  apply (eval_parts_items _ (dflt ++ cb) tr); [|exact Hco | exact Hfrom].
+  intros name. apply placeholder_plural; assumption.
+Qed.
+(* ---- the identity translation: msgstr = msgid ---- *)
+
+Lemma map_item_part_merge l raw : map item_part (merge_items_go l raw) = merge_go (map item_part l) raw.
+Proof.
+  revert raw; induction l as [|[t|p n b] r IH]; intros raw; cbn [merge_items_go map item_part merge_go].
+  - destruct raw; reflexivity.
+  - apply IH.
+  - destruct raw; cbn [flush map item_part]; rewrite IH; reflexivity.
+Qed.
+
+Lemma body_parts_items body : body_parts body = map item_part (source_items body).
+Proof.
+  unfold body_parts, source_items. induction body as [|n r IH]; [reflexivity|].
+  cbn [flat_map]. rewrite map_app, IH. f_equal. destruct n; reflexivity.
+Qed.
+
+Lemma merge_items_from l raw p n b : In (TPh p n b) (merge_items_go l raw) -> In (TPh p n b) l.
+Proof.
+  revert raw; induction l as [|[t|p' n' b'] r IH]; intros raw; cbn [merge_items_go].
+  - destruct raw; intros H; [destruct H | destruct H as [H|[]]; discriminate].
+  - intros H. right. apply (IH _ H).
+  - destruct raw; cbn [In]; intros H.
+    + destruct H as [H|H]; [left; exact H | right; apply (IH _ H)].
+    + destruct H as [H|[H|H]]; [discriminate | left; exact H | right; apply (IH _ H)].
+Qed.
+
+Lemma source_items_from body p n b : In (TPh p n b) (source_items body) -> In (NMsgPlaceholder p n b) body.
+Proof.
+  unfold source_items. intros H. apply in_flat_map in H as [x [Hx Hin]].
+  destruct x; cbn [item_of_node] in Hin; try (destruct Hin; fail).
+  - destruct Hin as [Hin|[]]. discriminate.
+  - destruct Hin as [Hin|[]]. injection Hin as <- <- <-. exact Hx.
+Qed.
+
+(* the source's own items, adjacent texts joined *)
+Definition identity_items (body : list node) : list titem := merge_items (source_items body).
+
+Lemma identity_items_from body : items_from body (identity_items body).
+Proof. intros p n b H. apply source_items_from. apply (merge_items_from _ [] _ _ _ H). Qed.
+
+(* with msgstr = msgid, a message that Validate accepts renders its own text
+   segments and placeholders in source order *)
+Theorem identity_flat mp id body :
+  reads_back body = true -> coherent body ->
+  bundle_message bd id = Some (new_message [] [write_body body]) ->
+  eval_msg plural_index bd w mp id body = run_items w (identity_items body).
+Proof.
+  intros Hrb Hco Hb. destruct (reads_back_sound body Hrb) as [Hf Hp].
+  apply (translated_flat mp id body (identity_items body) (write_body body) Hf Hco (identity_items_from body) Hb).
+  rewrite Hp. unfold identity_items, merge_items, merge_texts. rewrite map_item_part_merge, body_parts_items. reflexivity.
+Qed.
+
+Theorem identity_form p vn pv pc cv cb dflt strs k src :
+  reads_back cb = true -> reads_back dflt = true -> coherent (dflt ++ cb) ->
+  (src = cb \/ src = dflt) ->
+  nth_error strs k = Some (write_body src) ->
+  eval_form [NMsgPlural p vn pv [NMsgPluralCase pc cv cb] dflt] strs k = run_items w (identity_items src).
+Proof.
+  intros Hc Hd Hco Hsrc Hk.
+  destruct (reads_back_sound cb Hc) as [Hfc Hpc]. destruct (reads_back_sound dflt Hd) as [Hfd Hpd].
+  unfold eval_form. rewrite Hk.
+  assert (parts (write_body src) = map item_part (identity_items src)) as Hp.
+  { unfold identity_items, merge_items. rewrite map_item_part_merge, <- body_parts_items.
+    destruct Hsrc as [-> | ->]; assumption. }
+  rewrite Hp. apply (eval_parts_items _ (dflt ++ cb)); [|exact Hco|].
+  - intros name. apply placeholder_plural; assumption.
+  - intros q n b Hin. apply identity_items_from in Hin. apply in_or_app.
+    destruct Hsrc as [-> | ->]; [right | left]; exact Hin.
+Qed.
+
+(* ---- a translation that reorders the placeholders ---- *)
+
+Definition ph_items (tr : list titem) : list titem :=
+  filter (fun i => match i with TPh _ _ _ => true | TText _ => false end) tr.
+
+Theorem reorder_catalogue mp id body tr :
+  forallb flat_node body = true -> coherent body ->
+  Permutation (ph_items tr) (ph_items (source_items body)) ->
+  parts_clean (map item_part tr) ->
+  bundle_message bd id = Some (new_message [] [msgstr_of tr]) ->
+  eval_msg plural_index bd w mp id body = run_items w tr.
+Proof.
+  intros Hf Hco Hperm Hclean Hb. apply translation_places_values; try assumption.
+  intros p n b Hin. apply source_items_from.
+  assert (In (TPh p n b) (ph_items tr)) as H1 by (unfold ph_items; apply filter_In; split; [exact Hin | reflexivity]).
+  apply (Permutation_in _ Hperm) in H1. unfold ph_items in H1. apply filter_In in H1 as [H1 _]. exact H1.
+Qed.
+
 End Render.
